@@ -7,13 +7,16 @@ import re
 import sys
 
 HERE = os.path.dirname(os.path.dirname(os.path.abspath(__file__)))
+MARK = sys.argv[2] if len(sys.argv) > 2 else "SEEDED-TABLE"  # SEEDED-TABLE (breaking changes) | BENIGN-TABLE (behaviour-preserving ones)
+SUB = sys.argv[3] if len(sys.argv) > 3 else "seeded"
+BENIGN = MARK == "BENIGN-TABLE"
 rows = []
 for line in open(sys.argv[1]):
-    m = re.match(r"(C\d+-\d+) (C\d+) exit=(\d+) violations=(\d+) replay-confirmed=(\d+) :: (.*)", line.strip())
+    m = re.match(r"(C\d+-b?\d+) (C\d+) exit=(\d+) violations=(\d+) replay-confirmed=(\d+) :: (.*)", line.strip())
     if not m:
         continue
     sid, prop, code, nv, conf, first = m.groups()
-    meta = json.load(open(os.path.join(HERE, "seeded", sid, "meta.json")))
+    meta = json.load(open(os.path.join(HERE, SUB, sid, "meta.json")))
     what = meta["summary"].split(". ")[0][:150]
     ob = re.search(r"obligation=(\S+)", first)
     if ob:
@@ -25,16 +28,18 @@ for line in open(sys.argv[1]):
     if len(name) > 95:
         name = name[:92] + "..."
     verdict = "caught" if code == "1" and int(nv) > 0 else f"NOT caught (exit {code})"
+    if BENIGN:
+        verdict = "no alarm" if code == "0" and int(nv) == 0 else f"FALSE ALARM (exit {code})"
+        name = "-" if code == "0" else name
     rows.append((sid, what, verdict, nv, conf, name))
 out = ["| change | what it does (all pass the 276 tests) | verdict | violations (replay-confirmed) | first obligation reported |", "|---|---|---|---|---|"]
+if BENIGN:
+    out[0] = "| change | what it does (behaviour-preserving; 276 tests and its own differential demo pass) | verdict | violations | first obligation reported |"
 for sid, what, verdict, nv, conf, name in rows:
     out.append(f"| {sid} | {what} | {verdict} | {nv} ({conf}) | `{name}` |")
 text = "\n".join(out)
-open(os.path.join(HERE, "seeded", "RESULTS.md"), "w").write(text + "\n")
+open(os.path.join(HERE, "seeded", "RESULTS.md" if not BENIGN else "RESULTS-benign.md"), "w").write(text + "\n")
 d = open(os.path.join(HERE, "DESIGN.md")).read()
-if "SEEDED_TABLE_PLACEHOLDER" in d:
-    d = d.replace("SEEDED_TABLE_PLACEHOLDER", "<!-- SEEDED-TABLE-BEGIN -->\n" + text + "\n<!-- SEEDED-TABLE-END -->")
-else:
-    d = re.sub(r"<!-- SEEDED-TABLE-BEGIN -->.*<!-- SEEDED-TABLE-END -->", lambda m: "<!-- SEEDED-TABLE-BEGIN -->\n" + text + "\n<!-- SEEDED-TABLE-END -->", d, flags=re.S)
+d = re.sub(rf"<!-- {MARK}-BEGIN -->.*<!-- {MARK}-END -->", lambda m: f"<!-- {MARK}-BEGIN -->\n" + text + f"\n<!-- {MARK}-END -->", d, flags=re.S)
 open(os.path.join(HERE, "DESIGN.md"), "w").write(d)
-print(len(rows), "rows;", sum(1 for r in rows if r[2] == "caught"), "caught")
+print(len(rows), "rows;", sum(1 for r in rows if r[2] in ("caught", "no alarm")), "caught / no alarm")
